@@ -69,7 +69,7 @@ impl<'a> PrettyPrinter<'a> {
             let at_hash = peek_hash;
             peek_hash = false;
             if let Some(expr) = node.cast::<Expr>() {
-                let ctx = ctx.with_mode_if(Mode::Code, at_hash);
+                let ctx = ctx.after_hash(at_hash);
                 let expr_doc = self.convert_expr(ctx, expr);
                 doc += expr_doc;
             } else if let Some(space) = node.cast::<Space>() {
